@@ -15,7 +15,7 @@ META = {
     "level": "exploration",
     "rule": (
         "exhaustive: every pin word up to the tier's length for decoding, quadrants, factors and the three "
-        "tables; every (word, permutation) pair with |sigma| <= |w| <= 4 for containment; every direction word of "
+        "tables; every (word, permutation) pair with |sigma| <= |w| <= 4 (5 thorough) for containment; every direction word of "
         "length 2-7 for the translations; generated: words of length <= 8 with sigma drawn as a sub-permutation of "
         "perm(w) (truth = contained) or a one-point perturbation of one (near miss), pairs of pin words. Oracle: an "
         "order-theoretic decoder (two linear orders of point ids, no rationals), true containment by the reference "
@@ -227,6 +227,6 @@ def run(acc, tier):
         engine.pmap(acc, shard_generated, extra=(60, 40))
     else:
         engine.pmap(acc, shard_words, extra=(6,))
-        engine.pmap(acc, shard_contain, extra=(4,))
+        engine.pmap(acc, shard_contain, extra=(5,))
         engine.pmap(acc, shard_generated, extra=(800, 600))
         engine.fuzz(acc, "contain", CHECKS, 8000, corpus_seeds=[[4, 0, 4, 1, 5, 2, 2, 9, 1]])
